@@ -811,3 +811,315 @@ def calibration_case(delta_1):
 
 for _d1 in (False, True):
     REG.add(calibration_case(_d1))
+
+
+# ---------------------------------------------------------------------------------------------------
+# resampled_magnitude_test: union histogram over a first pass, one resampled catalog of exactly N events per synthetic catalog
+# ---------------------------------------------------------------------------------------------------
+from pyvc.models_sci import RNG, RNG0, SEEDED, RNG_NEXT, CHOICE_IDX      # noqa: E402
+
+RMT = CE + 'resampled_magnitude_test'
+RSTATE = z3.Function('rng_state_before_resample', z3.IntSort(), RNG)      # generator state when the i-th resample is drawn
+
+
+def union_of(I, fo, loopinv, k, upto):
+    j = z3.Int('i!lam')
+    return SUM(z3.Lambda([j], MCF(loopinv.pass_key(fo, j), to_z3(k))), to_z3(upto))
+
+
+class UnionLoop(PassInv):
+    """first pass: union_histogram[k] == sum of the magnitude counts of the catalogs seen so far"""
+
+    def havoc(self, I, fr, i, it):
+        n1 = I.ctx.ghost['n_mags']
+        self.U = I.ctx.fresh_fun('union_so_far', z3.IntSort(), z3.RealSort())
+        U = self.U
+        fr.locals['union_histogram'] = Arr((n1,), lambda ix: U(to_z3(ix[0])), 'float64', label='union_histogram')
+        fr.locals.pop('cat', None)
+        fr.locals.pop('j', None)
+
+    def inv(self, I, fr, i, it):
+        yield from PassInv.inv(self, I, fr, i, it)
+        fo = self.forecast(it)
+        n1 = I.ctx.ghost['n_mags']
+        uh = fr.locals['union_histogram']
+        if self.mode == 'prove':
+            k = I.ctx.fresh_int('k!sk')
+            self.sk = k
+            yield 'union_histogram[k] == sum over the catalogs seen so far of their count in bin k', z3.Implies(
+                z3.And(0 <= k, k < n1), to_real(uh.f((k,))) == union_of(I, fo, self, k, i))
+        else:
+            k = z3.Int('k!inv')
+            yield 'spec', z3.ForAll([k], z3.Implies(z3.And(0 <= k, k < n1), to_real(uh.f((k,))) == union_of(I, fo, self, k, i)),
+                                    patterns=[self.U(k)])
+
+    def step_lemmas(self, I, fr, i, it):
+        fo = self.forecast(it)
+        k = self.sk
+        I.used_lemmas.add('L0.count_unfold')
+        yield union_of(I, fo, self, k, to_z3(i) + 1) == union_of(I, fo, self, k, i) + MCF(self.pass_key(fo, i), k)
+
+
+def resample_value(I, state, e):
+    """magnitude of the e-th event of the catalog resampled in generator state `state`: a bin centre drawn from the union histogram"""
+    g = I.ctx.ghost['rmt']
+    return to_real(g['mags'].f((CHOICE_IDX(state, e),))) + g['half']()
+
+
+def resample_hist(I, state, k):
+    g = I.ctx.ghost['rmt']
+    e = z3.Int('i!cnt')
+    n1, m = g['n1'], g['N']
+    v = resample_value(I, state, e)
+    lo = to_real(g['mags'].f((k,)))
+    hi = z3.If(to_z3(k) == n1 - 1, g['max']() + 10, to_real(g['mags'].f((simp(to_z3(k) + 1),))))
+    return CNT(z3.Lambda([e], z3.And(lo <= v, z3.If(to_z3(k) == n1 - 1, v <= hi, v < hi))), m)
+
+
+class ResampleLoop(PassInv):
+    """second pass: one statistic per synthetic catalog, that of a catalog of exactly N events resampled from the union histogram in
+    the generator state RSTATE(i); the generator advances by one draw call per catalog"""
+
+    def havoc(self, I, fr, i, it):
+        self.VAL = I.ctx.fresh_fun('entry_value', z3.IntSort(), z3.RealSort())
+        VAL = self.VAL
+        fr.locals['test_distribution'] = SymList(to_z3(i), lambda s: VAL(to_z3(s)), 'test_distribution')
+        I.ctx.ghost['rng'] = RSTATE(to_z3(i))
+        for nm in ('mag_values', 'extended_mag_max', 'mag_counts', 'tmp', 'n_events', 'scale', 'catalog_histogram', 'catalog', 'i'):
+            fr.locals.pop(nm, None)
+
+    def stat(self, I, fr, s):
+        g = I.ctx.ghost['rmt']
+        n1 = g['n1']
+        sc = fr.locals['scaled_union_histogram']
+
+        def term(k):
+            a = LOG10(to_real(sc.f((k,))) + 1)
+            b = LOG10(z3.ToReal(resample_hist(I, RSTATE(to_z3(s)), k)) + 1)
+            return (a - b) * (a - b)
+        return _rsum(term, n1)
+
+    def proof_steps(self, I, fr, i):
+        """at the end of an iteration: the histogram of this iteration's resample, as the code computed it, is the spec histogram"""
+        from pyvc.contracts import pointwise_sum_hint
+        hs = I.ctx.ghost.get('histograms') or []
+        if not hs:
+            return
+        H = hs[-1]
+        g = I.ctx.ghost['rmt']
+        n1, N = g['n1'], g['N']
+        m = H['m']
+        state = RSTATE(simp(to_z3(i) - 1))
+        e, k = I.ctx.fresh_int('e!sk'), I.ctx.fresh_int('k!sk')
+        inside_lam = H['inside'].arg(0)
+        # L3b_count_all: every resampled magnitude (a bin centre) lies inside [first edge, largest edge + 10]
+        yield ('hint:every resampled magnitude lies inside the histogram range', z3.Implies(z3.And(0 <= e, e < m), z3.simplify(z3.Select(inside_lam, e))),
+               H['inside'] == m)
+        I.used_lemmas.add('L3.partition_count')
+        yield 'hint:the resampled catalog holds exactly N events', z3.And(m == N, H['total'] == N)
+        # L4_count_congr, for every bin: the count the code computes is the count of the spec
+        ee = z3.Int('i!cnt')
+        v = resample_value(I, state, e)
+        lo = to_real(g['mags'].f((k,)))
+        hi = z3.If(k == n1 - 1, g['max']() + 10, to_real(g['mags'].f((k + 1,))))
+        spec_in = z3.And(lo <= v, z3.If(k == n1 - 1, v <= hi, v < hi))
+        kk = z3.Int('k!cc')
+        q = I.ctx.fresh_int('q!pw')          # the bin at which the summands are compared below
+        at = lambda b: z3.Implies(z3.And(0 <= b, b < n1), CNT(z3.Lambda([ee], H['inbin'](b, ee)), m) == resample_hist(I, state, b))
+        yield ('hint:bin by bin the code counts the events of the spec histogram',
+               z3.Implies(z3.And(0 <= k, k < n1, 0 <= e, e < m), H['inbin'](k, e) == spec_in),
+               z3.And(z3.ForAll([kk], at(kk), patterns=[to_z3(g['mags'].f((kk,)))]), at(q),
+                      z3.Implies(z3.And(0 <= q, q < n1), z3.simplify(CNT(z3.Lambda([ee], H['inbin'](q, ee)), m)) == resample_hist(I, state, q))))
+        I.used_lemmas.add('L4.count_congruence')
+        if fr.locals.get('scale') is not None:
+            yield 'hint:the resampled histogram is not rescaled (it holds exactly N events)', to_real(fr.locals['scale']) == 1
+        lst = fr.locals['test_distribution']
+        last = getattr(lst, 'last_append', None)
+        if last is not None and z3.is_expr(last[1]):
+            shim = type('C', (), {'ctx': I.ctx, 'I': I})()
+            sc = fr.locals['scaled_union_histogram']
+
+            def term(q):
+                a = LOG10(to_real(sc.f((q,))) + 1)
+                b = LOG10(z3.ToReal(resample_hist(I, state, q)) + 1)
+                return (a - b) * (a - b)
+            entry = last[1]
+            if z3.is_app(entry) and entry.decl().name() == 'SUM':
+                # pointwise step by rewriting: in the code's summand at a fresh bin q the computed count is replaced by the spec
+                # count (previous step) and the scale factor by 1 (previous step); what is left is compared with the spec summand
+                rng_ = z3.And(0 <= q, q < n1)
+                G = z3.simplify(z3.Select(entry.arg(0), q))
+                code_cnt = z3.simplify(CNT(z3.Lambda([ee], H['inbin'](q, ee)), m))
+                pairs = [(code_cnt, resample_hist(I, state, q))]
+                if fr.locals.get('scale') is not None and z3.is_expr(fr.locals['scale']):
+                    pairs.append((z3.simplify(fr.locals['scale']), z3.RealVal(1)))
+                    pairs.append((fr.locals['scale'], z3.RealVal(1)))
+                G2 = z3.substitute(G, *pairs)
+                yield 'hint:count and scale at an arbitrary bin', z3.Implies(rng_, z3.And(*[a_ == b_ for a_, b_ in pairs]))
+                yield 'hint:the code summand rewritten with the spec count and scale 1', z3.Implies(rng_, G == G2)
+                yield ('hint:the summands of the statistic agree bin by bin', z3.Implies(rng_, G == term(q)),
+                       entry == _rsum(term, n1))
+                I.used_lemmas.add('L4.sum_congruence')
+
+    def inv(self, I, fr, i, it):
+        yield from PassInv.inv(self, I, fr, i, it)
+        if self.mode == 'prove' and simp(to_z3(i) == 0) is not True:
+            yield from self.proof_steps(I, fr, i)
+        lst = fr.locals['test_distribution']
+        n_l = to_z3(lst.n) if isinstance(lst, SymList) else z3.IntVal(len(lst))
+        yield 'one entry per catalog seen (a resampled catalog is never empty)', n_l == to_z3(i)
+        rng = I.ctx.ghost.get('rng', RNG0)
+        yield 'the generator has advanced by one draw call per catalog', rng == RSTATE(to_z3(i))
+        if isinstance(lst, list):
+            return
+        clause = lambda s: to_real(lst.f(s)) == self.stat(I, fr, s)
+        if self.mode == 'prove':
+            s = I.ctx.fresh_int('s!sk')
+            cur = simp(to_z3(i) - 1)
+            yield 'earlier entries are kept', z3.Implies(z3.And(0 <= s, s < cur), clause(s))
+            yield 'the new entry is the statistic of the catalog resampled in this iteration', z3.Implies(cur >= 0, clause(cur))
+        else:
+            s = z3.Int('s!inv')
+            yield 'spec', z3.ForAll([s], z3.Implies(z3.And(0 <= s, s < to_z3(i)), clause(s)), patterns=[self.VAL(s)])
+
+
+def _find_decl_prefix(term, prefix, out, seen=None):
+    seen = set() if seen is None else seen
+    if term.get_id() in seen:
+        return
+    seen.add(term.get_id())
+    if z3.is_app(term):
+        if term.decl().name().startswith(prefix):
+            out.append(term)
+        for ch in term.children():
+            _find_decl_prefix(ch, prefix, out, seen)
+    elif z3.is_quantifier(term):
+        _find_decl_prefix(term.body(), prefix, out, seen)
+
+
+def resampled_case(apply_filters, seeded):
+    class RT:
+        qualname = RMT
+        case = 'list-backed catalog forecast, apply_filters=%s, %s' % (apply_filters, 'seed given' if seeded else 'seed=None')
+        properties = ('C10',)
+        loops = {0: UnionLoop(), 1: ResampleLoop()}
+
+        def params(c):
+            from pyvc.core import Lam
+            n1 = c.int('n_mags')
+            c.ctx.assume(n1 >= 2)
+            c.ctx.ghost['n_mags'] = n1
+            mags = c.arr('magnitudes', 'float64', n=n1)
+            N = c.int('n_observed')
+            fo, J, nE = _list_forecast(c, apply_filters, min_magnitude=c.real('min_mw'), expected_rates=c.obj(None, name='expected rates'),
+                                       region=c.obj(None, name='region', magnitudes=mags))
+            obs_hist = c.arr('observed_magnitude_histogram', 'float64', n=n1)
+            obs = c.obj(None, event_count=c.int('n_obs_events'), name='obs', magnitude_counts=Lam(lambda *a, **k: obs_hist),
+                        region=c.obj(None, name='obs region', magnitudes=mags))
+            seed = c.int('seed') if seeded else None
+            half = lambda: (to_real(mags.f((z3.IntVal(1),))) - to_real(mags.f((z3.IntVal(0),)))) / 2
+            mx = c.ctx.fresh_real('largest_magnitude_edge')
+            c.ctx.ghost['rmt'] = dict(mags=mags, n1=n1, N=N, half=half, max=lambda: mx)
+            return dict(forecast=fo, observed_catalog=obs, verbose=False, seed=seed,
+                        _v=dict(J=J, obs=obs_hist, n1=n1, mags=mags, N=N, mx=mx))
+
+        def requires(c, forecast, observed_catalog, verbose, seed, _v):
+            obs, n1, J, mags, N, mx = _v['obs'], _v['n1'], _v['J'], _v['mags'], _v['N'], _v['mx']
+            i, a, b, s_ = z3.Int('i!rq'), z3.Int('a!rq'), z3.Int('b!rq'), z3.Int('s!rq')
+            key = (lambda k: FILT(SRC(k))) if apply_filters else (lambda k: SRC(k))
+            st0 = SEEDED(to_z3(seed)) if seed is not None else RNG0
+            return [observed_catalog.fields['event_count'] >= 0,
+                    z3.ForAll([i], z3.Implies(z3.And(0 <= i, i < n1), obs.f((i,)) >= 0), patterns=[obs.f((i,))]),
+                    # the gridded observation holds whole numbers: N events in all, N >= 1 exactly when the catalog is not empty (C03)
+                    _rsum(lambda k: obs.f((k,)), n1) == z3.ToReal(N), N >= 0, (N > 0) == (observed_catalog.fields['event_count'] > 0),
+                    # magnitude edges increase, bins narrower than 20 units; mx is the largest edge
+                    z3.ForAll([a, b], z3.Implies(z3.And(0 <= a, a < b, b < n1), mags.f((a,)) < mags.f((b,))), patterns=[z3.MultiPattern(mags.f((a,)), mags.f((b,)))]),
+                    to_real(mags.f((z3.IntVal(1),))) - to_real(mags.f((z3.IntVal(0),))) < 20, mx == mags.f((n1 - 1,)),
+                    # the synthetic catalogs hold at least one event in all (the union histogram is not empty)
+                    z3.ForAll([s_, i], z3.Implies(z3.And(0 <= s_, s_ < J, 0 <= i, i < n1), MCF(key(s_), i) >= 0), patterns=[MCF(key(s_), i)]),
+                    # generator states of the second pass: RSTATE(0) is the state at entry (after seeding, if a seed is given) and every
+                    # resample is one draw call
+                    RSTATE(0) == st0, z3.ForAll([i], RSTATE(i + 1) == RNG_NEXT(RSTATE(i)), patterns=[RSTATE(i + 1)])]
+
+        def ensures(c, r, forecast, observed_catalog, verbose, seed, _v):
+            obs, n1, J, mags, N = _v['obs'], _v['n1'], _v['J'], _v['mags'], _v['N']
+            n_ev = observed_catalog.fields['event_count']
+            yield 'returns a result object', z3.BoolVal(isinstance(r, Obj))
+            st, os_, q, td = (r.fields.get(k) for k in ('status', 'observed_statistic', 'quantile', 'test_distribution'))
+            if st == 'not-valid':
+                yield "'not-valid' only for an empty observed catalog", n_ev == 0
+                yield "'not-valid': no statistic and no quantile", z3.BoolVal(os_ is None and q == (None, None))
+                return
+            yield 'status normal', z3.BoolVal(st == 'normal')
+            yield 'a statistic is reported only for a non-empty observed catalog', n_ev != 0
+            yield 'test distribution is a list', z3.BoolVal(isinstance(td, SymList))
+            if isinstance(td, SymList):
+                yield 'one entry per synthetic catalog (each the statistic of a catalog of exactly N events resampled from the union ' \
+                      'histogram: loop invariant)', to_z3(td.n) == J
+            # observed statistic: against the union histogram of ALL synthetic catalogs, scaled to the observed number of events
+            from pyvc.contracts import pointwise_sum_hint
+            from contracts.order import find_apps
+            key = (lambda k: FILT(SRC(k))) if apply_filters else (lambda k: SRC(k))
+            jj = z3.Int('j!union')      # (not the bound variable of the sums over the bins)
+            U = lambda k: SUM(z3.Lambda([jj], MCF(key(jj), to_z3(k))), J)
+            n_obs = _rsum(lambda k: obs.f((k,)), n1)
+            n_union = _rsum(lambda k: U(k), n1)
+            osz = to_real(os_)
+            for st_ in find_apps(osz, 'SUM'):
+                if st_.arg(1).eq(to_z3(n1)) and not st_.eq(n_obs):
+                    h = pointwise_sum_hint(c, 'the number of events of the union is the sum over all catalogs and bins', st_, U, n1)
+                    if h and not st_.eq(osz):
+                        yield h
+
+            def obs_term(k):
+                a = LOG10(U(k) * (n_obs / n_union) + 1)
+                b = LOG10(to_real(obs.f((k,))) + 1)
+                return (a - b) * (a - b)
+            h = pointwise_sum_hint(c, 'the summands of the observed statistic agree bin by bin', osz, obs_term, n1)
+            if h and z3.is_app(osz) and osz.decl().name() == 'SUM':
+                # the same summand with the code's union array replaced by the union over all catalogs (two equalities, then
+                # substitution of equals), so that the comparison with the spec summand is syntactic
+                G = None
+                try:
+                    impl = h[1]
+                    G = impl.arg(1).arg(0) if z3.is_implies(impl) else None
+                    rng_ = impl.arg(0)
+                except Exception:
+                    G = None
+                if G is not None:
+                    ucalls = []
+                    _find_decl_prefix(G, 'union_so_far', ucalls)
+                    subs, eqs = [], []
+                    for u_ in ucalls:
+                        if u_.num_args() == 1 and not z3.is_var(u_.arg(0)) and 'lam' not in str(u_.arg(0)):
+                            subs.append((u_, U(u_.arg(0))))
+                            eqs.append(u_ == U(u_.arg(0)))
+                    for st_ in find_apps(G, 'SUM'):
+                        if st_.arg(1).eq(to_z3(n1)) and not st_.eq(n_obs) and 'union_so_far' in str(st_):
+                            subs.append((st_, n_union))
+                            eqs.append(st_ == n_union)
+                    if subs:
+                        G2 = z3.substitute(G, *subs)
+                        yield 'hint:the union array of the code is the union over all catalogs (at this bin, and in total)', z3.Implies(rng_, z3.And(*eqs))
+                        yield 'hint:the code summand with the union written out', z3.Implies(rng_, G == G2)
+                yield h
+            elif h:
+                yield h
+            yield 'observed statistic == sum_k (log10(union_k * N / N_union + 1) - log10(observed_k + 1))^2, union over ALL synthetic catalogs', \
+                osz == _rsum(obs_term, n1)
+            calls = c.calls(GQ)
+            yield 'quantiles come from get_quantiles (one call)', z3.BoolVal(len(calls) == 1)
+            if calls:
+                loc, out = calls[0][1], calls[0][2]
+                yield 'quantile == (delta_1, delta_2)', z3.BoolVal(isinstance(q, tuple) and len(q) == 2 and q[0] is out[0] and q[1] is out[1])
+                yield 'evaluated at the observed statistic', z3.BoolVal(loc['obs_count'] is os_)
+
+        def raises(c, exc, forecast, observed_catalog, verbose, seed, _v):
+            return None
+    RT.__name__ = 'ResampledMagnitudeTest_%s_%s' % (apply_filters, seeded)
+    return RT
+
+
+for _af in (False, True):
+    for _sd in (False, True):
+        REG.add(resampled_case(_af, _sd))
